@@ -437,7 +437,20 @@ fn lin_strategy(t: usize, lo: i64, hi: i64, unit: i64, name: &str) -> impl Strat
     "LunarWeek" => 600,
     _ => i64::MAX,
   });
-  let o = prop_oneof![6 => lo..=hi, 2 => lo..=(lo + 40.min(hi - lo)), 2 => (hi - 40.min(hi - lo))..=hi];
+  // origins near the October 1582 cut-over for the units that live on the civil time line (1582-10-04 is day 577,736)
+  let cut_day: i64 = 577_736;
+  let (c_lo, c_hi) = match name {
+    "SolarDay" | "LunarDay" | "SixtyCycleDay" => (cut_day - 40, cut_day + 40),
+    "SolarTime" | "SixtyCycleHour" | "LunarHour" => ((cut_day - 3) * 86400, (cut_day + 4) * 86400),
+    "SolarMonth" => (1582 * 12 + 6, 1582 * 12 + 12),
+    "SolarWeek" => ((cut_day + JDN0 - week_base()) / 7 - 6, (cut_day + JDN0 - week_base()) / 7 + 6),
+    "JulianDay" => (2_299_160 - 40, 2_299_160 + 40),
+    _ => (lo, hi),
+  };
+  let (c_lo, c_hi) = (c_lo.clamp(lo, hi), c_hi.clamp(lo, hi));
+  let o = prop_oneof![6 => lo..=hi, 2 => lo..=(lo + 40.min(hi - lo)), 2 => (hi - 40.min(hi - lo))..=hi, 1 => c_lo..=c_hi];
+  // second-based units: steps of whole days +- a few seconds (the day carry of the clock arithmetic)
+  let dayish = matches!(name, "SolarTime" | "SixtyCycleHour");
   // a few much longer steps for the slow steppers (a shortcut for big n is where a stepping bug would hide)
   let far = ((hi - lo) / unit).min(match name {
     "LunarMonth" => 30_000,
@@ -445,7 +458,7 @@ fn lin_strategy(t: usize, lo: i64, hi: i64, unit: i64, name: &str) -> impl Strat
     "LunarWeek" => 6_000,
     _ => 2_000_000,
   });
-  let step = move || prop_oneof![40 => -30i64..=30, 30 => -400i64..=400, 20 => -(span.min(2_000_000))..=span.min(2_000_000), 10 => Just(0i64), 3 => -far..=far];
+  let step = move || prop_oneof![40 => -30i64..=30, 30 => -400i64..=400, 20 => -(span.min(2_000_000))..=span.min(2_000_000), 10 => Just(0i64), 3 => -far..=far, 12 => (-40i64..=40, -5i64..=5).prop_map(move |(d, x)| if dayish { d * 86400 + x } else { x })];
   (o, step(), step()).prop_map(move |(o, a, b)| {
     // keep the case inside the range by construction: clip a and b
     let maxf = (hi - o) / unit;
